@@ -426,6 +426,12 @@ fn exec_redirected(t: &mut Tape, st: &mut Stats) -> Result<(), String> {
         }
         2 => {
             add(&mut nf, "content-length", "5")?;
+            // a body-less request that was sent with send-body-despite-method and is repeated by a 307/308: whether the followed
+            // flow still sends a body despite the method is not stated, so a Content-Length on it is judged either way
+            if despite_first && !takes && matches!(status, 307 | 308) {
+                st.class("redirected_dont_care_despite_carried");
+                return Ok(());
+            }
             true
         }
         3 => {
